@@ -38,6 +38,7 @@ def programs():
         "output_is_input": (lambda x, y: (x, y + 1.0), [S((2,), f32), S((2,), f32)], {"alias": True}),
         "duplicated_output": (lambda x: (x * 2.0,) * 2, [S((2,), f32)], {"alias": True}),
         "scalar_in_out": (lambda s: s * s, [S((), f32)], {}),
+        "twelve_args_unused_tail": (lambda *a: a[0] + a[5], [S((2,), f32)] * 12, {}),
     }
 
 
@@ -64,6 +65,24 @@ def run(ctx):
         "tools/onnx2coq.py + Onnx.v (trusted converter of the exported ModelProto); jax.eval_shape as the JAX-side oracle of the signature",
     ]
     common.build_props(ctx, "C05", ["GenInterface"])
+
+    # ---- search (independent of the translation): the real pass on unused inputs carrying positional names of every
+    #      index form; this is what produces the concrete failing input when C05_keep_positional no longer checks
+    idxs = list(range(0, 130)) + [255, 256, 999, 1000, 4096, 12345, 10 ** 9, 10 ** 12]
+    for form in ("in_{}", "in_{}_nchw"):
+        names = [form.format(k) for k in idxs]
+        vals = [ir.val(nm, ir.DataType.FLOAT, (2,)) for nm in names]
+        c = ir.val("c", ir.DataType.FLOAT, (2,), const_value=ir.tensor(np.zeros(2, np.float32)))
+        o = ir.val("oc", ir.DataType.FLOAT, (2,))
+        g = ir.Graph(vals, [o], nodes=[ir.Node("", "Relu", [c], outputs=[o], name="nc")], name="g", opset_imports={"": 23})
+        opt.prune_unused_graph_inputs_ir(g)
+        kept = [v.name for v in g.inputs]
+        lost = [nm for nm in names if nm not in kept]
+        ctx.coverage["positional_names_probed"] = int(ctx.coverage.get("positional_names_probed", 0)) + len(names)
+        if lost or kept != [nm for nm in names if nm in kept]:
+            ctx.violate(f"positional-input-pruned:{form.format('k')}:{lost[0] if lost else 'reordered'}",
+                        f"prune_unused_graph_inputs_ir drops/reorders unused positional graph inputs {lost[:6]} (form {form.format('<k>')})",
+                        {"kind": "prune_names", "names": names, "lost": lost})
 
     # ---- tie T/D: keep decision and prune model vs the real code
     pool = ["in_0", "in_1", "in_2", "in_10", "in_0_nchw", "in_3_nchw", "in_", "in_x", "in_1x", "in__nchw", "in_1_nchw_", "deterministic",
@@ -202,6 +221,17 @@ def run(ctx):
 def replay(path):
     from jax2onnx import to_onnx
     r = json.load(open(path))["replay"]
+    if r.get("kind") == "prune_names":
+        import onnx_ir as ir
+        from jax2onnx.converter import ir_optimizations as opt
+        vals = [ir.val(nm, ir.DataType.FLOAT, (2,)) for nm in r["names"]]
+        c = ir.val("c", ir.DataType.FLOAT, (2,), const_value=ir.tensor(np.zeros(2, np.float32)))
+        o = ir.val("oc", ir.DataType.FLOAT, (2,))
+        g = ir.Graph(vals, [o], nodes=[ir.Node("", "Relu", [c], outputs=[o], name="nc")], name="g", opset_imports={"": 23})
+        opt.prune_unused_graph_inputs_ir(g)
+        lost = [nm for nm in r["names"] if nm not in [v.name for v in g.inputs]]
+        print("pruned positional inputs:", lost[:10])
+        return 1 if lost else 0
     fn, spec, _ = programs()[r["program"]]
     cfg = r["config"]
     kw = {"enable_double_precision": cfg.get("double", False)}
